@@ -182,6 +182,7 @@ class Symex:
         self.max_depth = max_depth
         self.cut_loops = cut_loops
         self.normalize = normalize          # callable(term) -> term applied to results of symbolic arithmetic
+        self.inplace = False                # True while an augmented assignment is evaluated
         self._modconst = {}
         self.fresh_n = 0
         self.on_start = None
@@ -364,7 +365,12 @@ class Symex:
             if isinstance(cur, set) and isinstance(s.op, (ast.BitOr,)):
                 cur.update(v)
                 return
-            self.assign(s.target, self.binop(s.op, cur, v, s))
+            self.inplace = True         # visible to rule-defined arithmetic ("$binop"): `x op= y`
+            try:
+                r = self.binop(s.op, cur, v, s)
+            finally:
+                self.inplace = False
+            self.assign(s.target, r)
         elif isinstance(s, ast.Assert):
             c = self.ev(s.test)
             if isinstance(c, T) and self.assume_asserts:
